@@ -373,11 +373,16 @@ func (e *Engine) VerifyFuncLit(st *State, x *ast.FuncLit, results []string, ensu
 		return e.errf(x.Pos(), "function literal without signature")
 	}
 	sub := st.Clone()
+	var argVals []Val
 	for i := 0; i < sig.Params().Len(); i++ {
 		p := sig.Params().At(i)
 		sub.vars[p] = e.Fresh("arg!"+p.Name(), SortOf(p.Type()))
 		e.typeFacts(sub, Val{sub.vars[p], p.Type()})
+		argVals = append(argVals, Val{sub.vars[p], p.Type()})
 	}
+	// $arg<depth>_<i>: the i-th argument of the literal at nesting depth <depth> (0 = outermost)
+	e.litArgs = append(e.litArgs, argVals)
+	defer func() { e.litArgs = e.litArgs[:len(e.litArgs)-1] }()
 	for i := 0; i < sig.Results().Len(); i++ {
 		r := sig.Results().At(i)
 		if r.Name() != "" {
@@ -399,6 +404,11 @@ func (e *Engine) VerifyFuncLit(st *State, x *ast.FuncLit, results []string, ensu
 			continue
 		}
 		env := e.newEnv(o.st, x.Body.Rbrace)
+		for d, as := range e.litArgs {
+			for i, a := range as {
+				env.Bound[fmt.Sprintf("$arg%d_%d", d, i)] = a
+			}
+		}
 		for i, rn := range results {
 			if v, ok := o.st.named[fmt.Sprintf("$res%d", i)]; ok {
 				env.Bound[rn] = v
